@@ -6,7 +6,7 @@ ROOT = os.path.dirname(os.path.dirname(os.path.abspath(__file__)))
 DETECTION = {
  "S01": ("C03", "quick", "generated bounded_int_div_rem instantiation (narrow lhs, rhs.upper >= 2^123) + wrap-around DivMod lie divmod(n + k*P, d)"),
  "S02": ("C03", "quick", "generated instantiation in the guard zone (lhs.upper >= 2^246, rhs in [2^118, 2^128]) accepted only with the change + wrap-around DivMod lie"),
- "S03": ("C03", "thorough", "missed by quick (160 generated instantiations); caught by thorough (800): threshold-mode instantiation with rhs.upper > 2^128 + 1, divisor just above 2^128, wrap-around DivMod lie"),
+ "S03": ("C03", "quick", "missed by quick with 160 generated instantiations (thorough with 800 caught it); quick now generates 320 and catches it: threshold-mode instantiation with rhs.upper > 2^128 + 1, divisor just above 2^128, wrap-around DivMod lie"),
  "S04": ("C03", "quick", "arrays.cairo::wide3_get_at_len (3-cell elements, index == len, data behind the span) + flipped TestLessThan; missed before the catalogue had elements wider than 2 cells"),
  "S05": ("C03", "quick", "arrays.cairo::wide3_arg_slice / wide3_slice_exact + flipped TestLessThanOrEqual; missed before wide elements were added"),
  "S06": ("C03", "quick", "arrays.cairo::multi_pop_front3_behind / multi_pop_back3_behind (span of exactly 3 cells) + flipped TestLessThanOrEqualAddress; missed before array lengths 3,4,6 were added"),
@@ -14,7 +14,7 @@ DETECTION = {
  "S08": ("C12", "quick", "level 1: task permutation with 2 workers on project contract (two contracts); needed the H1 shim to offer try_for_each_with (build failed before) and a second contract in the template"),
  "S09": ("C12", "quick", "level 1: project errors (ambiguous impl + explicit use in another module), prefix analyses the other module first; missed before the errors project existed"),
  "S10": ("C13", "quick", "insert a line above an item with diagnostics, query, compare: stale line/column"),
- "S11": ("C13", "quick", "swap_adjacent_lines of two struct members in one edit: Sierra keeps the old member order; missed before the adjacent-swap edit kinds existed (then 2 of 3 seeds with 96 histories, and the default quick run)"),
+ "S11": ("C13", "quick", "swap_adjacent_lines of two struct members in one edit: Sierra keeps the old member order; missed before the adjacent-swap edit kinds existed (then 2 of 3 seeds with 96 histories); quick runs 64 histories since, which catches it with the default seed (with other seeds it may take thorough)"),
  "S12": ("C13", "quick", "disk write under an override, unset: incremental database keeps the first-read content"),
  "S13": ("C03", "quick", "generated downcast instantiation (below-only, positive lower bound) + flipped TestLessThan"),
  "S14": ("C03", "quick", "missed at first (quick and 240 s thorough): no target range ending exactly at 2^128-1; caught after the generator draws half of its endpoints from the switch values (0, 2^128-1, 2^128, signed bounds) and bounded.cairo got dc_felt_upper_at_rc_bound"),
